@@ -132,21 +132,29 @@ def random_cq(rng, maxlen, nops):
 
 def validate(ctx, recs, label):
     total = sum(len(r.events) for r in recs)
-    nch = max(1, min(16, total // 4000))
+    nch = max(1, min(16, total // 4000)) if ctx.quick else max(1, min(64, total // 60000))      # thorough: files of about 60 000 events
     jobs, metas = [], []
     for ci, ch in enumerate(chunks(recs, nch)):
         events = [e for r in ch for e in r.events]
         path = ctx.path("%s-%d.ndjson" % (label, ci))
         write_ndjson(path, events)
         jobs.append(lambda path=path: run_tlc("ContainersTrace", "SPECIFICATION Spec\nCHECK_DEADLOCK FALSE\n", env={"TRACE_FILE": path},
-                                              workers=1, timeout=900 if ctx.quick else 3400, xmx="4g"))
+                                              workers=1, timeout=900 if ctx.quick else 3400, xmx="4g" if ctx.quick else "6g"))
         metas.append((ch, len(events)))
     out = {"events": 0, "hist": 0, "ops": 0, "maxcands": 0, "ambiguous": 0, "states": 0, "abandoned": 0}
     fails = []
     for (ch, nev), res in zip(metas, run_batches(jobs)):
         v = verdict_of(res)
         if v is None or not res.ok or v["events"] != nev:
-            raise TLCError("ContainersTrace gave no verdict:\n" + res.out[-2500:])
+            try:
+                import os
+                from ..common import VERIF
+                os.makedirs(os.path.join(VERIF, "out"), exist_ok=True)
+                with open(os.path.join(VERIF, "out", "c19-tlc-output.txt"), "w") as fh:
+                    fh.write(res.out)
+            except Exception:       # noqa: BLE001
+                pass
+            raise TLCError("ContainersTrace gave no verdict (full TLC output: out/c19-tlc-output.txt):\n" + res.out[-2500:])
         out["events"] += nev
         out["states"] += res.distinct
         for k in ("hist", "ops", "ambiguous", "abandoned"):
